@@ -7,7 +7,7 @@ from . import compositelib as L
 OCAML = ["composite"]
 GO = ["composite"]
 PROP = "props/C11.v"
-PROOFS = ["proofs/CompositeC11.v"] + L.PROOFS_COMMON
+PROOFS = ["proofs/CompositeProto.v"] + L.PROOFS_COMMON
 
 
 def run(run):
@@ -15,9 +15,9 @@ def run(run):
     if not L.build(run):
         return
     quick = run.tier == "quick"
-    fams = [("corpus:corpus/C11/duplicate-entry-names.jsonl", 0, 0), ("c11", 400 if quick else 6000, run.seed),
-            ("c11dup", 6 if quick else 30, run.seed + 1),
-            ("c10", 60 if quick else 600, run.seed + 2)]
+    fams = [("corpus:corpus/C11/duplicate-entry-names.jsonl", 0, 0), ("c11", 1500 if quick else 20000, run.seed),
+            ("c11dup", 12 if quick else 60, run.seed + 1),
+            ("c10", 200 if quick else 2000, run.seed + 2)]
     results, cover, summary, scripts, traces = L.run_families(run, fams)
     cnt = L.classify(run, "C11", results, scripts, traces)
     sa, mism = L.check_a(run, ["-mode", "membership", "-len", 4])
